@@ -171,6 +171,10 @@ func Yield() {}
 // Deterministic switches interleaving exploration off (set-up phase) or back on.
 func Deterministic(on bool) {}
 
+// AdvanceClock moves the executor's concrete clock forward (clock_mode=concrete). A native
+// run cannot skip time: harnesses must not depend on it for the branch they replay.
+func AdvanceClock(seconds int) {}
+
 // Settle lets the background goroutines started so far run until they block, without
 // exploring their interleavings (set-up phase of a scenario).
 func Settle() {}
